@@ -151,9 +151,13 @@ theorem searchOnce_sdk (c : Client) (t : Bytes) (q : Table.Query) (ex : Exprs) :
         | true => simp only [if_true]
         | false =>
           simp only [Bool.false_eq_true, if_false]
-          cases tb.searchData (matcher c t ex) q with
-          | ok r => simp [outItem]
-          | error cls => rfl
+          cases hs : (!startKeyOk tb q) with
+          | true => simp only [if_true]
+          | false =>
+            simp only [Bool.false_eq_true, if_false]
+            cases tb.searchData (matcher c t ex) q with
+            | ok r => simp [outItem]
+            | error cls => rfl
 
 theorem query_sdk (c : Client) (t : Bytes) (q : Table.Query) (ex : Exprs) :
     query (c.withSdk .v2) t q ex =
@@ -188,9 +192,14 @@ theorem query_sdk (c : Client) (t : Bytes) (q : Table.Query) (ex : Exprs) :
             | false =>
               rw [hi] at h
               simp only [Bool.false_eq_true, if_false] at h
-              split at h
-              · cases h
-              · cases h; rfl
+              cases hs : (!startKeyOk tb q) with
+              | true => rw [hs] at h; simp only [if_true] at h; cases h; rfl
+              | false =>
+                rw [hs] at h
+                simp only [Bool.false_eq_true, if_false] at h
+                split at h
+                · cases h
+                · cases h; rfl
     rw [this]; rfl
 
 /-- a batch write: same state, same output (its output carries requests, not stored items) -/
